@@ -312,6 +312,9 @@ def build_cases(ctx, cfg, refs):
         if i % 4 == 0:
             cnt('merge:' + str(cs.merge('from %s %d to %s %d' % (d1, t1[0] % 12 or 12, d2, t2[0] % 12 or 12), R)))     # no am/pm: comment
             cnt('merge:' + str(cs.merge('between %s %s and %s %s' % (d1, clock(*t1), d1, clock(*t2)), R)))
+            # boundary: equal clock times (a zero span, or exactly one day once rolled)
+            cnt('merge:' + str(cs.merge('from %s %s to %s' % (d1, clock(*t1), clock(*t1)), R)))
+            cnt('merge:' + str(cs.merge('from %s to %s %s' % (clock(*t1), d2, clock(*t1)), R)))
         # ---- merge_date_and_time_periods
         (ha, ma, sa), (hb, mb, sb) = sorted([t1, t2])
         for text in ('%s from %s to %s' % (d1, clock(ha, ma), clock(hb, mb)),
